@@ -1,40 +1,60 @@
-(* C20: model of AUTO_INCREMENT bookkeeping for a table t(id BIGINT AUTO_INCREMENT PRIMARY KEY, ...):
-     memory/table.go        Table.GetNextAutoIncrementValue, PeekNextAutoIncrementValue
+(* C20: model of AUTO_INCREMENT bookkeeping for a table t(id <int type> AUTO_INCREMENT PRIMARY KEY, u UNIQUE, v):
+     memory/table.go        Table.GetNextAutoIncrementValue, PeekNextAutoIncrementValue, updateAutoIncrementSafe
      sql/expression/auto_increment.go   AutoIncrement.Eval (NULL / 0 => generate; negative => no auto logic)
-     memory/table_editor.go tableEditor.Insert (counter bump: cmp = 0 => +1), SetAutoIncrementValue (ALTER, unconditional),
-                            DiscardChanges (a failed statement restores the TableData, counter included; an ignorable
-                            error only clears the accumulator)
-     sql/rowexec/insert.go  insertIter.updateLastInsertId (countdown of firstGeneratedAutoIncRowIdx over INSERTED rows)
-     sql/rowexec/dml_iters.go  insertRowHandler (OkResult.InsertID = id of the first inserted row)
-   memory/table.go updateAutoIncrementSafe: the counter is advanced only while the next value fits the column type
-   ([tmax], at most MaxUint64): it pins at the type maximum and never wraps.
-   The table also has a UNIQUE column u; a row whose u value is already stored is a duplicate as well ([udup], decided by
-   the driver from the stored rows: within one statement the u values are pairwise different). *)
+     memory/table_editor.go tableEditor.Insert (primary key, then unique key check; counter bump: cmp > 0 => value + 1,
+                            cmp = 0 => + 1), tableEditor.Update (no counter logic), SetAutoIncrementValue (ALTER,
+                            unconditional), StatementBegin / StatementComplete / DiscardChanges (a failed statement
+                            restores the TableData, counter included; an ignorable error only clears the accumulator)
+     sql/rowexec/insert.go  insertIter.Next: plain / IGNORE / REPLACE (delete the conflicting rows, insert, return BEFORE
+                            updateLastInsertId) / ON DUPLICATE KEY UPDATE (handleOnDuplicateKeyUpdate on the existing row, no
+                            updateLastInsertId); updateLastInsertId (countdown of firstGeneratedAutoIncRowIdx over INSERTED rows)
+     sql/rowexec/dml.go     INSERT IGNORE runs under the CheckpointingTableEditorIter: StatementComplete after every inserted
+                            row replaces the SESSION's table data by a copy of the accumulator's; from then on
+                            GetNextAutoIncrementValue works on that copy ([sctr]) while tableEditor.Insert advances the
+                            accumulator's counter ([ctr]); tableEditor.Close copies the accumulator's data back at the end
+     sql/rowexec/dml_iters.go  insertRowHandler (OkResult.InsertID = id of the first inserted row); REPLACE / ODKU:
+                            InsertID = the session's LAST_INSERT_ID() at the end of the statement
+     memory/session.go      StartTransaction / CommitTransaction / Rollback: a transaction works on a private copy of the
+                            table data (counter included) and COMMIT stores that copy as the table ([world] below)
+   The counter is advanced only while the next value fits the column type ([tmax]): it pins there and never wraps. *)
 From Coq Require Import List ZArith Bool.
 Import ListNotations.
 Open Scope Z_scope.
 
 Record st := {
-  ctr : Z;              (* TableData.autoIncVal *)
-  ids : list Z;         (* stored ids *)
+  ctr : Z;              (* autoIncVal of the edit accumulator's TableData (= the table's between statements) *)
+  sctr : Z;             (* autoIncVal of the session's TableData: differs from ctr only inside an INSERT IGNORE *)
+  linked : bool;        (* both are the same Go object (no checkpoint has happened in this statement) *)
+  rows : list (Z * Z);  (* stored rows: id, u *)
   lid : Z;              (* session LAST_INSERT_ID() *)
   cnt : Z;              (* insertIter.firstGeneratedAutoIncRowIdx (per statement) *)
   first : option Z;     (* insertRowHandler.lastInsertId source: id of the first inserted row (per statement) *)
+  delu : list Z;        (* u values of the rows in the edit accumulator's [deletes] (per statement): GetByCols reports no
+                           conflict for them, although ON DUPLICATE KEY UPDATE has put the updated row back *)
   seen : list Z;        (* ghost: every id ever stored, in order *)
   gens : list Z         (* ghost: every generated id of a committed row, in order *)
 }.
 
-Definition init : st := {| ctr := 1; ids := []; lid := 0; cnt := -1; first := None; seen := []; gens := [] |}.
+Definition ids (s : st) : list Z := map fst (rows s).
+
+Definition init : st :=
+  {| ctr := 1; sctr := 1; linked := true; rows := []; lid := 0; cnt := -1; first := None; delu := []; seen := []; gens := [] |}.
+
+(* ON DUPLICATE KEY UPDATE v = <const> | id = LAST_INSERT_ID(id) | id = id + d *)
+Inductive oact := OSetV | OLid | OAdd (d : Z).
+Inductive imode := MPlain | MIgnore | MReplace | MOdku (a : oact).
 
 Inductive event :=
-| EInsert (ignore : bool) (specs : list (option Z * bool))
-    (* id: None = NULL / 0 / DEFAULT / column omitted, Some k = explicit k <> 0;  flag: the row's u value is already stored *)
+| EInsert (m : imode) (specs : list (option Z * Z))
+    (* id: None = NULL / 0 / DEFAULT / column omitted, Some k = explicit k <> 0;  second component: the row's u value *)
 | EDelGe (k : Z)                                     (* DELETE FROM t WHERE id >= k *)
 | EDelEq (k : Z)                                     (* DELETE FROM t WHERE id = k *)
-| EAlter (n : Z).                                    (* ALTER TABLE t AUTO_INCREMENT = n *)
+| EAlter (n : Z)                                     (* ALTER TABLE t AUTO_INCREMENT = n *)
+| EUpdId (k k' : Z)                                  (* UPDATE t SET id = k' WHERE id = k *)
+| ESetLid (n : Z).                                   (* SELECT LAST_INSERT_ID(n) *)
 
 (* analyzer/inserts.go: index of the first tuple whose id is NULL / 0 / DEFAULT, else -1 *)
-Fixpoint first_gen_index (specs : list (option Z * bool)) : Z :=
+Fixpoint first_gen_index (specs : list (option Z * Z)) : Z :=
   match specs with
   | [] => -1
   | (None, _) :: _ => 0
@@ -44,52 +64,116 @@ Fixpoint first_gen_index (specs : list (option Z * bool)) : Z :=
 (* updateAutoIncrementSafe *)
 Definition bump (tmax c : Z) : Z := if c <? tmax then c + 1 else c.
 
-(* AutoIncrement.Eval + GetNextAutoIncrementValue: the id of the row and the counter afterwards *)
-Definition eval_id (c : Z) (sp : option Z) : Z * Z :=
+(* tableEditor.Insert's counter logic: cmp > 0 => the inserted value, then +1; cmp = 0 => +1 *)
+Definition ins_bump (tmax id c : Z) : Z := if c <=? id then bump tmax id else c.
+
+(* AutoIncrement.Eval + GetNextAutoIncrementValue (on the session's table data): the id of the row; an explicit id above
+   the counter raises it *)
+Definition eval_id (s : st) (sp : option Z) : Z * st :=
   match sp with
-  | None => (c, c)
-  | Some k => if k <? 0 then (k, c) else (k, Z.max c k)
+  | None => (sctr s, s)
+  | Some k =>
+      if k <? 0 then (k, s)
+      else (k, {| ctr := if linked s then Z.max (ctr s) k else ctr s; sctr := Z.max (sctr s) k; linked := linked s;
+                  rows := rows s; lid := lid s; cnt := cnt s; first := first s; delu := delu s; seen := seen s; gens := gens s |})
   end.
 
-(* one row through insertIter.Next / tableEditor.Insert; None = duplicate key in a plain INSERT *)
-Definition row_step (tmax : Z) (ign : bool) (s : st) (spu : option Z * bool) : option st :=
-  let '(sp, udup) := spu in
-  let '(id, c') := eval_id (ctr s) sp in
-  if udup || existsb (Z.eqb id) (ids s) then
-    (* INSERT IGNORE: the row is skipped.  GetNextAutoIncrementValue raised the counter of the SESSION's table data, but
-       the statement ends with ApplyEdits from the accumulator's own TableData, whose counter only tableEditor.Insert
-       advances: the raise is lost *)
-    (if ign then Some {| ctr := ctr s; ids := ids s; lid := lid s; cnt := cnt s; first := first s; seen := seen s; gens := gens s |}
-     else None)
-  else
-    Some {| ctr := if id =? c' then bump tmax c' else c';
-            ids := ids s ++ [id];
-            lid := if cnt s =? 0 then id else lid s;
-            cnt := if cnt s <? 0 then cnt s else cnt s - 1;
-            first := match first s with None => Some id | f => f end;
-            seen := seen s ++ [id];
-            gens := match sp with None => gens s ++ [id] | Some _ => gens s end |}.
+Definition has_id (id : Z) (l : list (Z * Z)) : bool := existsb (fun r => fst r =? id) l.
+Definition has_u (u : Z) (l : list (Z * Z)) : bool := existsb (fun r => snd r =? u) l.
 
-Fixpoint rows_run (tmax : Z) (ign : bool) (s : st) (specs : list (option Z * bool)) : st * bool :=
+(* the row tableEditor.Insert reports as UniqueKeyError.Existing: primary key first (pkTableEditAccumulator.Get), then the
+   unique index (GetByCols: "if we have this row in any delete, bail" - a u value of [dl] is reported as free; the table is
+   kept sorted by id, so the row with the smallest id is found) *)
+Fixpoint min_u (u : Z) (l : list (Z * Z)) (best : option (Z * Z)) : option (Z * Z) :=
+  match l with
+  | [] => best
+  | r :: l' => min_u u l' (if snd r =? u then match best with Some b => if fst r <? fst b then Some r else best | None => Some r end
+                           else best)
+  end.
+
+Definition existing (id u : Z) (l : list (Z * Z)) (dl : list Z) : option (Z * Z) :=
+  match find (fun r => fst r =? id) l with
+  | Some r => Some r
+  | None => if existsb (Z.eqb u) dl then None else min_u u l None
+  end.
+
+Definition with_delu (s : st) (u : Z) : st :=
+  {| ctr := ctr s; sctr := sctr s; linked := linked s; rows := rows s; lid := lid s; cnt := cnt s; first := first s;
+     delu := delu s ++ [u]; seen := seen s; gens := gens s |}.
+
+(* a successful tableEditor.Insert (+ updateLastInsertId unless REPLACE; + the checkpoint of INSERT IGNORE) *)
+Definition do_insert (tmax : Z) (m : imode) (s : st) (gen : bool) (id u : Z) (l : list (Z * Z)) : st :=
+  let c := ins_bump tmax id (ctr s) in
+  let repl := match m with MReplace => true | _ => false end in
+  {| ctr := c; sctr := c;
+     linked := match m with MIgnore => false | _ => linked s end;
+     rows := l ++ [(id, u)];
+     lid := if repl then lid s else if cnt s =? 0 then id else lid s;
+     cnt := if repl then cnt s else if cnt s <? 0 then cnt s else cnt s - 1;
+     first := match first s with None => Some id | f => f end;
+     delu := delu s;
+     seen := seen s ++ [id];
+     gens := if gen then gens s ++ [id] else gens s |}.
+
+Definition with_rows_seen (s : st) (l : list (Z * Z)) (sn : list Z) : st :=
+  {| ctr := ctr s; sctr := sctr s; linked := linked s; rows := l; lid := lid s; cnt := cnt s; first := first s;
+     delu := delu s; seen := sn; gens := gens s |}.
+
+Definition with_lid (s : st) (l : Z) : st :=
+  {| ctr := ctr s; sctr := sctr s; linked := linked s; rows := rows s; lid := l; cnt := cnt s; first := first s;
+     delu := delu s; seen := seen s; gens := gens s |}.
+
+Definition with_ctr (s : st) (c : Z) : st :=
+  {| ctr := c; sctr := c; linked := true; rows := rows s; lid := lid s; cnt := cnt s; first := first s;
+     delu := delu s; seen := seen s; gens := gens s |}.
+
+Definition set_id (k k' : Z) (l : list (Z * Z)) : list (Z * Z) :=
+  map (fun r => if fst r =? k then (k', snd r) else r) l.
+
+(* one row through insertIter.Next; None = the statement fails *)
+Definition row_step (tmax : Z) (m : imode) (s0 : st) (spu : option Z * Z) : option st :=
+  let '(sp, u) := spu in
+  let '(id, s) := eval_id s0 sp in
+  let gen := match sp with None => true | Some _ => false end in
+  match existing id u (rows s) (delu s) with
+  | None => Some (do_insert tmax m s gen id u (rows s))
+  | Some ex =>
+      match m with
+      | MPlain => None
+      | MIgnore => Some s       (* skipped; a raise by GetNextAutoIncrementValue stays in the session's copy only *)
+      | MReplace =>             (* delete the primary-key conflict, then the unique-key conflict, then insert *)
+          Some (do_insert tmax m s gen id u (filter (fun r => negb (fst r =? id) && negb (snd r =? u)) (rows s)))
+      | MOdku a =>              (* tableEditor.Update: the old row goes to the accumulator's deletes, the new one to its adds *)
+          let s := with_delu s (snd ex) in
+          match a with
+          | OSetV => Some s     (* the existing row keeps id and u *)
+          | OLid => Some (with_lid s (fst ex))
+          | OAdd d =>
+              let k' := fst ex + d in
+              if k' =? fst ex then Some s
+              else if has_id k' (rows s) then None
+              else Some (with_rows_seen s (set_id (fst ex) k' (rows s)) (seen s ++ [k']))
+          end
+      end
+  end.
+
+Fixpoint rows_run (tmax : Z) (m : imode) (s : st) (specs : list (option Z * Z)) : st * bool :=
   match specs with
   | [] => (s, true)
-  | sp :: r => match row_step tmax ign s sp with
-               | Some s' => rows_run tmax ign s' r
+  | sp :: r => match row_step tmax m s sp with
+               | Some s' => rows_run tmax m s' r
                | None => (s, false)
                end
   end.
 
-Definition begin_insert (s : st) (specs : list (option Z * bool)) : st :=
-  {| ctr := ctr s; ids := ids s; lid := lid s; cnt := first_gen_index specs; first := None; seen := seen s; gens := gens s |}.
+Definition begin_insert (s : st) (specs : list (option Z * Z)) : st :=
+  {| ctr := ctr s; sctr := ctr s; linked := true; rows := rows s; lid := lid s; cnt := first_gen_index specs; first := None;
+     delu := []; seen := seen s; gens := gens s |}.
 
-Definition with_lid (s : st) (l : Z) : st :=
-  {| ctr := ctr s; ids := ids s; lid := l; cnt := cnt s; first := first s; seen := seen s; gens := gens s |}.
-
-Definition with_ids (s : st) (l : list Z) : st :=
-  {| ctr := ctr s; ids := l; lid := lid s; cnt := cnt s; first := first s; seen := seen s; gens := gens s |}.
-
-Definition with_ctr (s : st) (c : Z) : st :=
-  {| ctr := c; ids := ids s; lid := lid s; cnt := cnt s; first := first s; seen := seen s; gens := gens s |}.
+(* tableEditor.Close: the accumulator's table data becomes the session's *)
+Definition end_insert (s : st) : st :=
+  {| ctr := ctr s; sctr := ctr s; linked := true; rows := rows s; lid := lid s; cnt := cnt s; first := first s;
+     delu := []; seen := seen s; gens := gens s |}.
 
 (* uint64(int64(id)) *)
 Definition wrap64 (z : Z) : Z := if z <? 0 then z + 18446744073709551616 else z.
@@ -97,21 +181,38 @@ Definition wrap64 (z : Z) : Z := if z <? 0 then z + 18446744073709551616 else z.
 (* result: succeeded?, OkResult.InsertID *)
 Definition step (tmax : Z) (s : st) (e : event) : st * (bool * Z) :=
   match e with
-  | EInsert ign specs =>
-      let '(s1, ok) := rows_run tmax ign (begin_insert s specs) specs in
-      if ok then (s1, (true, match first s1 with Some id => wrap64 id | None => 0 end))
+  | EInsert m specs =>
+      let '(s1, ok) := rows_run tmax m (begin_insert s specs) specs in
+      if ok then
+        (end_insert s1,
+         (true, match m with
+                | MPlain | MIgnore => match first s1 with Some id => wrap64 id | None => 0 end
+                | _ => wrap64 (lid s1)
+                end))
       else (with_lid s (lid s1), (false, 0))        (* the table data is restored, the session variable is not *)
-  | EDelGe k => (with_ids s (filter (fun x => x <? k) (ids s)), (true, 0))
-  | EDelEq k => (with_ids s (filter (fun x => negb (x =? k)) (ids s)), (true, 0))
+  | EDelGe k => (with_rows_seen s (filter (fun r => fst r <? k) (rows s)) (seen s), (true, 0))
+  | EDelEq k => (with_rows_seen s (filter (fun r => negb (fst r =? k)) (rows s)) (seen s), (true, 0))
   | EAlter n => (with_ctr s n, (true, 0))
+  | EUpdId k k' =>
+      if has_id k (rows s) && negb (k' =? k) then
+        if has_id k' (rows s) then (s, (false, 0))
+        else (with_rows_seen s (set_id k k' (rows s)) (seen s ++ [k']), (true, 0))
+      else (s, (true, 0))
+  | ESetLid n => (with_lid s n, (true, 0))
   end.
 
 Definition run (tmax : Z) (s : st) (h : list event) : st := fold_left (fun s e => fst (step tmax s e)) h s.
 
-(* the guard of the theorems: ALTER TABLE ... AUTO_INCREMENT never lowers the counter, and the counter stays below the
-   type maximum (the behaviour AT the maximum is the subject of the saturation theorems) *)
+(* the guard of the theorems: ALTER TABLE ... AUTO_INCREMENT never lowers the counter, no UPDATE (plain or through
+   ON DUPLICATE KEY UPDATE id = id + d) puts an id at or above the counter, and the counter stays below the type maximum
+   (the behaviour AT the maximum is the subject of the saturation theorems) *)
 Definition ev_ok (s : st) (e : event) : bool :=
-  match e with EAlter n => ctr s <=? n | _ => true end.
+  match e with
+  | EAlter n => ctr s <=? n
+  | EUpdId _ k' => k' <? ctr s
+  | EInsert (MOdku (OAdd d)) _ => d <=? 0     (* an id moved by d > 0 may land at or above the counter *)
+  | _ => true
+  end.
 
 Fixpoint guarded (tmax : Z) (s : st) (h : list event) : bool :=
   match h with
@@ -125,4 +226,67 @@ Definition ev_fits (tmax : Z) (e : event) : bool :=
   | EInsert _ specs => forallb (fun sp => match fst sp with Some k => k <=? tmax | None => true end) specs
   | EAlter n => n <=? tmax
   | _ => true
+  end.
+
+(* ---------- several sessions, transactions (memory/session.go) ---------- *)
+Record tb := { t_ctr : Z; t_rows : list (Z * Z); t_seen : list Z; t_gens : list Z }.
+
+Definition tb_of (s : st) : tb := {| t_ctr := ctr s; t_rows := rows s; t_seen := seen s; t_gens := gens s |}.
+Definition st_of (t : tb) (l : Z) : st :=
+  {| ctr := t_ctr t; sctr := t_ctr t; linked := true; rows := t_rows t; lid := l; cnt := -1; first := None;
+     delu := []; seen := t_seen t; gens := t_gens t |}.
+
+Record world := {
+  wdb : tb;                 (* the table stored in the database *)
+  wlid : list Z;            (* LAST_INSERT_ID() of session 0, 1, ... (0 when absent) *)
+  wtx : list (option tb)    (* the private copy of a session inside BEGIN ... COMMIT / ROLLBACK *)
+}.
+
+Definition winit : world := {| wdb := tb_of init; wlid := []; wtx := [] |}.
+
+Fixpoint set_nth {A} (d : A) (i : nat) (v : A) (l : list A) : list A :=
+  match i, l with
+  | O, [] => [v]
+  | O, _ :: r => v :: r
+  | S j, [] => d :: set_nth d j v []
+  | S j, x :: r => x :: set_nth d j v r
+  end.
+
+Inductive wevent :=
+| WStmt (i : nat) (e : event)
+| WBegin (i : nat)        (* BEGIN; the copy is taken at the session's first access (the driver reads right away) *)
+| WCommit (i : nat)
+| WRollback (i : nat).
+
+Definition wtable (w : world) (i : nat) : tb := match nth i (wtx w) None with Some t => t | None => wdb w end.
+
+Definition wstep (tmax : Z) (w : world) (e : wevent) : world * (bool * Z) :=
+  match e with
+  | WStmt i ev =>
+      let '(s', res) := step tmax (st_of (wtable w i) (nth i (wlid w) 0)) ev in
+      let l' := set_nth 0 i (lid s') (wlid w) in
+      (match nth i (wtx w) None with
+       | Some _ => {| wdb := wdb w; wlid := l'; wtx := set_nth None i (Some (tb_of s')) (wtx w) |}
+       | None => {| wdb := tb_of s'; wlid := l'; wtx := wtx w |}
+       end, res)
+  | WBegin i =>       (* an open transaction is committed first *)
+      let db := wtable w i in
+      ({| wdb := db; wlid := wlid w; wtx := set_nth None i (Some db) (wtx w) |}, (true, 0))
+  | WCommit i => ({| wdb := wtable w i; wlid := wlid w; wtx := set_nth None i None (wtx w) |}, (true, 0))
+  | WRollback i => ({| wdb := wdb w; wlid := wlid w; wtx := set_nth None i None (wtx w) |}, (true, 0))
+  end.
+
+Definition wrun (tmax : Z) (w : world) (h : list wevent) : world := fold_left (fun w e => fst (wstep tmax w e)) h w.
+
+(* the guard, per statement against the table it works on *)
+Definition wev_ok (tmax : Z) (w : world) (e : wevent) : bool :=
+  match e with
+  | WStmt i ev => let s := st_of (wtable w i) (nth i (wlid w) 0) in ev_ok s ev && (ctr (fst (step tmax s ev)) <? tmax)
+  | _ => true
+  end.
+
+Fixpoint wguarded (tmax : Z) (w : world) (h : list wevent) : bool :=
+  match h with
+  | [] => true
+  | e :: h' => wev_ok tmax w e && wguarded tmax (fst (wstep tmax w e)) h'
   end.
